@@ -185,7 +185,13 @@ bool Units::UnitsImpl::performTestWithHistory(History &history, std::vector<cons
 
         history.push_back(h);
 
-        return importedUnits->pFunc()->performTestWithHistory(history, localPath, importedUnits, type);
+        // The history describes the chain of imports that leads to these units, not every import visited so far:
+        // leave it as it was found so that a second reference to imported units is not mistaken for an import cycle.
+        auto result = importedUnits->pFunc()->performTestWithHistory(history, localPath, importedUnits, type);
+
+        history.pop_back();
+
+        return result;
     }
 
     // Units that reference each other in a cycle are never defined, but they have nothing left to resolve.
